@@ -69,6 +69,11 @@ def eval_expr(e: ast.expr, env: dict[str, Any], oracle: Oracle | None = None) ->
         return True
     if isinstance(e, ast.IfExp):
         return eval_expr(e.body if eval_expr(e.test, env, oracle) else e.orelse, env, oracle)
+    if isinstance(e, ast.NamedExpr) and isinstance(e.target, ast.Name):
+        env[e.target.id] = eval_expr(e.value, env, oracle)
+        return env[e.target.id]
+    if isinstance(e, ast.Await):
+        return eval_expr(e.value, env, oracle)
     if isinstance(e, ast.Call):
         f = ast.unparse(e.func)
         if f in ("max", "min", "int", "abs", "float", "round", "bool") and not e.keywords:
